@@ -1606,6 +1606,13 @@ func (n *RootNode) Render(w io.Writer, ctx *RenderContext) error {
 				if err := child.Render(io.Discard, ctx); err != nil {
 					return err
 				}
+			case *IfNode, *ForNode:
+				// An assignment takes effect inside a condition or a loop too
+				if onlyAssigns([]Node{child}) {
+					if err := child.Render(io.Discard, ctx); err != nil {
+						return err
+					}
+				}
 			}
 		}
 
@@ -1633,6 +1640,32 @@ func (n *RootNode) Render(w io.Writer, ctx *RenderContext) error {
 		}
 	}
 	return nil
+}
+
+// onlyAssigns reports whether nodes consist of text, set tags, and conditions and loops
+// around such nodes: what a template that extends another may run outside its blocks
+func onlyAssigns(nodes []Node) bool {
+	for _, node := range nodes {
+		switch n := node.(type) {
+		case *TextNode, *SetNode, *CommentNode:
+		case *IfNode:
+			for _, body := range n.bodies {
+				if !onlyAssigns(body) {
+					return false
+				}
+			}
+			if !onlyAssigns(n.elseBranch) {
+				return false
+			}
+		case *ForNode:
+			if !onlyAssigns(n.body) || !onlyAssigns(n.elseBranch) {
+				return false
+			}
+		default:
+			return false
+		}
+	}
+	return true
 }
 
 // Release returns a RootNode to the pool
